@@ -509,8 +509,10 @@ class TmpDir:
         shutil.rmtree(self.d, ignore_errors=True)
 
     def write(self, text, ext):
+        # ONE working path per kind, rewritten for every file (a refinement loop rewrites its CIF in place): a reader that keeps parsed
+        # files by path (and mtime / size) must still return what the file states NOW
         self.k += 1
-        p = os.path.join(self.d, 'f%d.%s' % (self.k, ext))
+        p = os.path.join(self.d, 'work.%s' % ext)
         with open(p, 'w', newline='') as fh:
             fh.write(text)
         return p
@@ -813,6 +815,22 @@ def exact_multiplicity(pos_fr, sgname):
     return frac_orbit_margin(pos_fr, g.rot, exact_trans(g.trans))[0]
 
 
+def same_length_twin(truth):
+    """a copy of a generated CIF case whose text has the same length and states another a axis (first digit of _cell_length_a
+    changed); None when the value is not written plainly"""
+    import re, copy
+    m = re.search(r'(_cell_length_a[ \t]+)([0-9.]+)', truth['text'])
+    a = truth['cell'][0]
+    if not m or m.group(2) != a or not a[0].isdigit() or a[0] == '0':
+        return None
+    a2 = str(int(a[0]) % 9 + 1) + a[1:]
+    t2 = copy.deepcopy(truth)
+    t2['cell'] = [a2] + list(truth['cell'][1:])
+    t2['text'] = truth['text'][:m.start(2)] + a2 + truth['text'][m.end(2):]
+    assert len(t2['text']) == len(truth['text'])
+    return t2
+
+
 def check_cif(truth, tmp):
     """violations of the property for one generated CIF"""
     out = []
@@ -935,6 +953,12 @@ def oracle(ctx, hints=()):
             t = gen_cif(rng)
             viol += check_cif(t, tmp)
             ev += 1
+            t2 = same_length_twin(t) if rng.random() < 0.3 else None
+            if t2 is not None:
+                # the same path rewritten at once with a text of the SAME length that states another cell
+                viol += [dict(v, rewritten_in_place_after=t['text']) for v in check_cif(t2, tmp)]
+                ev += 1
+                cov['same_length_rewrites'] = cov.get('same_length_rewrites', 0) + 1
             texts.add(t['text'])
             c = t['cov']
             for k in c['adp_kinds']:
@@ -969,6 +993,9 @@ def replay(payload):
         print('replay C17: no failing input stored:', payload.get('broken') or v)
         return 1
     with TmpDir() as tmp:
+        if v.get('rewritten_in_place_after'):
+            # the file that was at the same path just before (same length): read it first, as the stream did
+            read_file(tmp, v['rewritten_in_place_after'], 'cif', v.get('blkname'))
         res = check_cif(v['truth'], tmp) if v['kind'] == 'cif' else check_pdb(v['truth'], tmp)
     print('replay C17 %s: %s' % (v['kind'], 'VIOLATION' if res else 'holds'))
     print('--- file ---')
